@@ -2,6 +2,7 @@ package vf
 
 import (
 	"runtime"
+	"sync/atomic"
 	"time"
 )
 
@@ -10,3 +11,22 @@ func quiesceNative() { time.Sleep(20 * time.Millisecond) }
 func yieldNative() { runtime.Gosched() }
 
 func slowNative() { time.Sleep(6 * time.Second) }
+
+var yieldSeed uint64 = 88172645463325252
+
+// NativeYield is what the replay build inserts before every statement of the
+// packages under an interleaving exploration: a scheduling point, sometimes a
+// short sleep, so that the windows between two statements are wide enough for
+// the native scheduler to hit the interleaving the engine found.
+func NativeYield() {
+	x := atomic.AddUint64(&yieldSeed, 0x9E3779B97F4A7C15)
+	x ^= x >> 31
+	x *= 0xBF58476D1CE4E5B9
+	x ^= x >> 29
+	switch {
+	case x%16 == 0:
+		time.Sleep(time.Duration(1+x%40) * time.Microsecond)
+	case x%2 == 0:
+		runtime.Gosched()
+	}
+}
